@@ -2,6 +2,7 @@
   Insertion sort (`sortBy`): membership, length, and identity on strictly ascending lists.
 -/
 import C4E.Basic
+import C4E.Lemmas.AListLemmas
 namespace C4E
 
 theorem mem_insertBy_iff {α} (lt : α → α → Bool) (x y : α) : ∀ l : List α, y ∈ insertBy lt x l ↔ y = x ∨ y ∈ l
@@ -69,5 +70,108 @@ theorem asc_map {α β} (lt : α → α → Bool) (lt' : β → β → Bool) (f 
   | [], _ => trivial
   | [_], _ => trivial
   | a :: b :: rest, h => ⟨hf a b h.1, asc_map lt lt' f hf (b :: rest) h.2⟩
+
+
+/-! ### association lists with distinct keys: lookups survive sorting -/
+open AList
+
+def KeysNodup {α} : AList α → Prop
+  | [] => True
+  | kv :: rest => (∀ x ∈ rest, x.1 ≠ kv.1) ∧ KeysNodup rest
+
+theorem get?_some_iff_mem {α} : ∀ (m : AList α) (k : String) (v : α), KeysNodup m → (AList.get? m k = some v ↔ (k, v) ∈ m)
+  | [], k, v, _ => by simp [AList.get?]
+  | (k', v') :: rest, k, v, h => by
+    obtain ⟨h1, h2⟩ := h
+    unfold AList.get?
+    by_cases hk : k' = k
+    · subst hk
+      simp only [if_true, Option.some.injEq, List.mem_cons, Prod.mk.injEq, true_and]
+      constructor
+      · intro e; exact Or.inl e.symm
+      · rintro (e | hm)
+        · exact e.symm
+        · exact absurd rfl (h1 (k', v) hm)
+    · simp only [hk, if_false, List.mem_cons, Prod.mk.injEq]
+      rw [get?_some_iff_mem rest k v h2]
+      constructor
+      · exact Or.inr
+      · rintro (⟨e, _⟩ | hm)
+        · exact absurd e.symm hk
+        · exact hm
+
+theorem keysNodup_insertBy {α} (lt : String × α → String × α → Bool) (x : String × α) : ∀ l : AList α,
+    KeysNodup l → (∀ y ∈ l, y.1 ≠ x.1) → KeysNodup (insertBy lt x l)
+  | [], _, _ => ⟨(by intro y hy; cases hy), trivial⟩
+  | z :: zs, h, hx => by
+    unfold insertBy
+    split
+    · exact ⟨hx, h⟩
+    · refine ⟨?_, keysNodup_insertBy lt x zs h.2 (fun y hy => hx y (by simp [hy]))⟩
+      intro y hy
+      rcases (mem_insertBy_iff lt x y zs).mp hy with rfl | hy
+      · exact fun e => hx z (by simp) e.symm
+      · exact h.1 y hy
+
+theorem keysNodup_sortBy {α} (lt : String × α → String × α → Bool) : ∀ l : AList α, KeysNodup l → KeysNodup (sortBy lt l)
+  | [], _ => trivial
+  | x :: xs, h => by
+    have ih := keysNodup_sortBy lt xs h.2
+    unfold sortBy at ih ⊢
+    simp only [List.foldr_cons]
+    apply keysNodup_insertBy lt x _ ih
+    intro y hy
+    have : y ∈ sortBy lt xs := hy
+    exact h.1 y ((mem_sortBy_iff lt y xs).mp this)
+
+/-- sorting an association list with distinct keys does not change any lookup -/
+theorem get?_sortBy {α} (lt : String × α → String × α → Bool) (m : AList α) (k : String) (h : KeysNodup m) :
+    AList.get? (sortBy lt m) k = AList.get? m k := by
+  have hs := keysNodup_sortBy lt m h
+  cases h1 : AList.get? (sortBy lt m) k with
+  | some v =>
+    have := (get?_some_iff_mem _ k v hs).mp h1
+    exact ((get?_some_iff_mem m k v h).mpr ((mem_sortBy_iff lt _ m).mp this)).symm
+  | none =>
+    cases h2 : AList.get? m k with
+    | none => rfl
+    | some v =>
+      have := (get?_some_iff_mem m k v h).mp h2
+      have := (get?_some_iff_mem _ k v hs).mpr ((mem_sortBy_iff lt _ m).mpr this)
+      rw [h1] at this; cases this
+
+theorem keysNodup_set {α} : ∀ (m : AList α) (k : String) (v : α), KeysNodup m → KeysNodup (AList.set m k v)
+  | [], k, v, _ => ⟨(by intro x hx; cases hx), trivial⟩
+  | (k', v') :: rest, k, v, h => by
+    unfold AList.set
+    by_cases hk : k' = k
+    · simp only [hk, if_true]
+      subst hk
+      exact ⟨h.1, h.2⟩
+    · simp only [hk, if_false]
+      refine ⟨?_, keysNodup_set rest k v h.2⟩
+      intro x hx
+      -- members of `set rest k v` are members of rest or the new pair
+      have : x = (k, v) ∨ x ∈ rest := by
+        clear h
+        induction rest with
+        | nil => simp [AList.set] at hx; exact Or.inl hx
+        | cons y ys ih =>
+          obtain ⟨ky, vy⟩ := y
+          unfold AList.set at hx
+          by_cases hy : ky = k
+          · simp only [hy, if_true] at hx
+            rcases List.mem_cons.mp hx with e | hm
+            · exact Or.inl e
+            · exact Or.inr (List.mem_cons_of_mem _ hm)
+          · simp only [hy, if_false] at hx
+            rcases List.mem_cons.mp hx with e | hm
+            · exact Or.inr (by rw [e]; simp)
+            · rcases ih hm with e | hm2
+              · exact Or.inl e
+              · exact Or.inr (List.mem_cons_of_mem _ hm2)
+      rcases this with rfl | hm
+      · exact fun e => hk e.symm
+      · exact h.1 x hm
 
 end C4E
